@@ -31,7 +31,7 @@ import common
 from common import short
 from gen import c13_graphs as G
 
-MODELS = ['ObjModel']
+MODELS = ['ObjModel', 'ObjCfg']
 MANIFEST = dict(
     text='Lean model of CPython attribute lookup (object/type __getattribute__ order, with the trace of user '
          '__get__ calls), of jedi\'s getattr_static backport, is_allowed_getattr, the CompiledValueFilter._get '
@@ -66,6 +66,7 @@ class Env:
         from jedi import settings
         self.settings = settings
         self.saved = settings.allow_unsafe_interpreter_executions
+        self.mismatch = None
 
     def set(self, unsafe):
         self.settings.allow_unsafe_interpreter_executions = unsafe
@@ -74,7 +75,8 @@ class Env:
         import jedi
         self.set(unsafe)
         st = jedi.Interpreter('', [{}])._inference_state
-        assert st.allow_unsafe_executions == unsafe
+        if st.allow_unsafe_executions != unsafe and self.mismatch is None:
+            self.mismatch = {'setting': unsafe, 'inference_state.allow_unsafe_executions': st.allow_unsafe_executions}
         return st
 
     def restore(self):
@@ -231,7 +233,7 @@ def stream_units(ctx, env, rec, reqs, cases, src, info, ns, reg, rng):
             if dirset is None:
                 dirset = set(dir(obj))
             for unsafe in (False, True):
-                for is_instance in (False, True):
+                for is_instance in ((False, True) if not unsafe or not ctx.quick else (rng.random() < 0.5,)):
                     st = env.state(unsafe)
                     value = compiled_value(st, obj)
                     f = cv.CompiledValueFilter(st, value, is_instance)
@@ -436,15 +438,21 @@ def stream_containers(ctx, env, rec, reqs, cases, reg):
         except AttributeError:
             pass
         rec.reset()
-        r = acc.py__iter__list()
+        try:
+            r = acc.py__iter__list()
+            shape = 'noIter' if r is None else 'refused' if r == [] else 'nonempty:%d' % len(r)
+        except Exception as e:
+            shape = 'raised:' + type(e).__name__
         evs = rec.take()
-        shape = 'noIter' if r is None else 'refused' if r == [] else 'nonempty:%d' % len(r)
         reqs.append({'op': 'iterlist', 'ty': ty, 'target': tgt, 'annotated': annotated})
         cases.append(('iterlist', dict(base), {'shape': shape, 'len': len(obj) if hasattr(type(obj), '__len__')
                                                and type(obj).__module__ == 'builtins' else None,
                                                'events': [k if k != 'property' else '__get__' for k in proto(evs)]}))
         rec.reset()
-        acc.has_iter()
+        try:
+            acc.has_iter()
+        except Exception as e:
+            ctx.count('raised', (label,), nontrivial=False, bucket='has_iter:%s@%s' % common.exc_site(e))
         reqs.append({'op': 'hasiter', 'ty': ty, 'target': tgt})
         cases.append(('hasiter', dict(base), {'events': [k if k != 'property' else '__get__' for k in proto(rec.take())]}))
         for unsafe in (False, True):
@@ -870,11 +878,32 @@ def compare(ctx, cases, answers):
             bucket = ','.join(impl['events']) or '-'
         ctx.count(stream, json.dumps(case, sort_keys=True, default=str), nontrivial=bool(nontrivial), bucket=bucket,
                   sample={k: v for k, v in case.items() if k != 'graph'} if isinstance(case, dict) else case)
+        direct_checks(ctx, stream, case, impl)
         if ok:
             continue
         ctx.tie_broken('correspondence:' + stream, short({'case': {k: v for k, v in case.items() if k != 'graph'},
                                                           'impl': impl, 'model': ans}, 1500))
         search_failing_input(ctx, stream, case, impl, ans)
+
+
+def direct_checks(ctx, stream, case, impl):
+    """property-level demands on unit streams that are evaluated whether or not the model agrees"""
+    how = 'see stream description in harness/props/c13.py; graph source is part of the input'
+    flat = dict(case)
+    if 'graph' in flat:
+        flat['source'] = flat.pop('graph')['source']
+    if stream == 'values':
+        missing = sorted(set(impl['dir']) - set(impl['names']))
+        if missing:
+            ctx.fail('values', 'CompiledValueFilter.values() drops names of dir(obj)', flat,
+                     expected='superset of dir(obj)', observed={'missing': missing[:20]}, how=how)
+        if impl['moved'] and not case['unsafe']:
+            ctx.fail('values', 'values() executed user code in safe mode', flat, expected=[], observed=impl, how=how)
+    elif stream in ('static', 'allowed') and impl['moved']:
+        ctx.fail(stream, 'static attribute lookup executed user code', flat, expected=[], observed=impl, how=how)
+    elif stream == 'getitem' and case['safe'] and impl['events']:
+        ctx.fail(stream, 'safe mode item access executed a user __getitem__', flat, expected=[],
+                 observed=impl, how=how)
 
 
 def search_failing_input(ctx, stream, case, impl, ans):
@@ -887,18 +916,7 @@ def search_failing_input(ctx, stream, case, impl, ans):
         if impl['trace'] or impl['other'] or impl['get_moved']:
             ctx.fail('filter', 'safe mode: CompiledValueFilter.get(name) + infer() executed user code', flat,
                      expected='no user __get__ / property getter', observed=impl, how=how)
-    elif stream == 'allowed' and impl['moved']:
-        ctx.fail('allowed', 'is_allowed_getattr executed user code', flat, expected=[], observed=impl, how=how)
-    elif stream == 'static' and impl['moved']:
-        ctx.fail('static', 'getattr_static executed user code', flat, expected=[], observed=impl, how=how)
-    elif stream == 'values':
-        missing = sorted(set(impl['dir']) - set(impl['names']))
-        if missing:
-            ctx.fail('values', 'CompiledValueFilter.values() drops names of dir(obj)', flat,
-                     expected='superset of dir(obj)', observed={'missing': missing}, how=how)
-        if impl['moved'] and not case['unsafe']:
-            ctx.fail('values', 'values() executed user code in safe mode', flat, expected=[], observed=impl, how=how)
-    elif stream in ('getitem', 'mixedgetitem') and (case.get('safe') or case.get('unsafe') is False):
+    elif stream == 'mixedgetitem' and case.get('unsafe') is False:
         if impl['events']:
             ctx.fail(stream, 'safe mode item access executed a user __getitem__', flat, expected=[],
                      observed=impl, how=how)
@@ -935,12 +953,12 @@ def run(ctx):
         reg = G.Registry()
         stream_containers(ctx, env, rec, reqs, cases, reg)
         rng = ctx.subrng('graphs')
-        n_graphs = ctx.size(6, 60)
+        n_graphs = ctx.size(4, 60)
         for gi in range(n_graphs):
             src, info = G.gen_graph(rng)
             ns = G.build(src, rec, 'exec')
             stream_units(ctx, env, rec, reqs, cases, src, info, ns, reg, rng)
-        n_e2e = ctx.size(8, 80)
+        n_e2e = ctx.size(7, 80)
         for gi in range(n_e2e):
             src, info = G.gen_graph(rng, n_classes=rng.randint(2, 4))
             flavor = 'file' if gi % 3 == 2 else 'exec'
@@ -951,6 +969,13 @@ def run(ctx):
     finally:
         env.restore()
         shutil.rmtree(tmpdir, ignore_errors=True)
+    ctx.count('setting', 'copied', nontrivial=True, bucket='mismatch' if env.mismatch else 'copied')
+    if env.mismatch:
+        ctx.fail('setting', 'settings.allow_unsafe_interpreter_executions is not what the inference state of a new '
+                 'Interpreter uses', {'setting': env.mismatch['setting']}, expected=env.mismatch['setting'],
+                 observed=env.mismatch,
+                 how='settings.allow_unsafe_interpreter_executions = <setting>; '
+                     'jedi.Interpreter("", [{}])._inference_state.allow_unsafe_executions')
     if ctx.model_ok:
         answers = common.run_driver_parallel('C13', reqs + [{'op': 'flags'}])
         ctx.notes.append('code-shape flags read by the translator: %s' % json.dumps(answers[-1]))
